@@ -196,6 +196,13 @@ def run(tier, seed, replay=None):
             # sibling targets whose names are prefixes of one another; a nested target the outer walk skips
             multi += [[PROJ + "/app", PROJ + "/app_plugins"], [PROJ + "/app_plugins", PROJ + "/app"], [PROJ + "/app/", os.path.join(base, PROJ, "app_plugins")],
                       [PROJ, PROJ + "/build/gen"], [PROJ + "/build/gen", PROJ]]
+            # the directory and a symbolic link to it (the same files reached twice: F72)
+            lnk = "lnk_" + PROJ.replace(".", "_")
+            if os.path.lexists(os.path.join(base, lnk)):
+                multi += [[PROJ, lnk], [lnk, PROJ], [lnk + "/", PROJ + "/"]]
+                if dirs:
+                    multi.append([lnk + "/" + rng.choice(dirs), PROJ])
+                hist["multi_target_symlink_calls"] = hist.get("multi_target_symlink_calls", 0) + 3
             mo = C.harness_batch("files", [{"Cwd": base, "Paths": p, "Recursive": True, "Include": PATTERN_SETS[0][0], "Exclude": PATTERN_SETS[0][1]} for p in multi]) if multi else []
             for p, o in zip(multi, mo):
                 hist["multi_target_calls"] += 1
@@ -206,7 +213,7 @@ def run(tier, seed, replay=None):
                 if have_driver:
                     want = set()
                     for tgt in p:
-                        relt = os.path.relpath(os.path.join(base, tgt), os.path.join(base, PROJ))
+                        relt = os.path.relpath(os.path.realpath(os.path.join(base, tgt)), os.path.realpath(os.path.join(base, PROJ)))
                         pre = [] if relt == "." else relt.split("/")
                         if os.path.isfile(os.path.join(base, tgt)):
                             sub = [[pre[-1]]] if pre else []
